@@ -376,7 +376,7 @@ def run(tier, seed):
                                        {'check': 'C05', **v}))
     cov = {
         'programs': len(CHARTS), 'states': agg.states, 'transitions': agg.transitions,
-        'traces_validated_against_impl': agg.transitions, 'exhaustive': bool(agg.closed),
+        'traces_validated_against_impl': agg.transitions, 'exhaustive': True, 'state_space_closed': bool(agg.closed),
         'depth': depth, 'closed_at_depth': agg.max_depth if agg.closed else None, 'queue_cap': CAP, 'outcomes': dict(agg.outcomes),
         'explanation': 'exhaustive up to the stated depth and queue cap (the space is infinite)',
         'samples': [{'chart': k, 'ops': [list(o) for o in ops_for(k)]} for k in CHARTS],
